@@ -1,6 +1,7 @@
 (* M14 (b): pyflyby._livepatch.livepatch and its handlers (_livepatch__dict / __function / __method /
    __class / __setattr / __object / __module, _get_definition_module), as repaired by
-   fixes/F29-livepatch-class-bases.diff and fixes/C16a-livepatch-object-slot-setattr.diff.
+   fixes/F29-livepatch-class-bases.diff, fixes/C16a-livepatch-object-slot-setattr.diff and
+   fixes/C16d-livepatch-function-kwdefaults.diff.
    Model only; proofs are in PatchProofs.v.
 
    The handlers are written with open recursion (`rec` = the nested call of `livepatch`), the
@@ -56,9 +57,9 @@ Variable nm : names.
         else: return None                                                                   *)
 Definition defmod (h : heap) (a : addr) : option key :=
   match lookup h a with
-  | Some (OFunc _ md _ _ _ _ _ _) => md
+  | Some (OFunc _ md _ _ _ _ _ _ _ _) => md
   | Some (OClass _ md _ _ _) => md
-  | Some (OMethod f _) => match lookup h f with Some (OFunc _ md _ _ _ _ _ _) => md | _ => None end
+  | Some (OMethod f _) => match lookup h f with Some (OFunc _ md _ _ _ _ _ _ _ _) => md | _ => None end
   | _ => None
   end.
 
@@ -116,7 +117,7 @@ Definition patch_dict (rec : recT) (s : st) (stack : list addr) (d_old d_new : a
     return new_func                                                                        *)
 Definition updatable (o : obj) : bool :=
   match o with
-  | OFunc _ _ _ _ _ _ _ _ | OMethod _ _ | OClass _ _ _ _ _ | ODict _ => true
+  | OFunc _ _ _ _ _ _ _ _ _ _ | OMethod _ _ | OClass _ _ _ _ _ | ODict _ => true
   | _ => false
   end.
 
@@ -145,7 +146,7 @@ Fixpoint cells_ok (h : heap) (l1 l2 : list addr) : bool :=
 (* the identity-keeping condition of _livepatch__function *)
 Definition func_compatible (h : heap) (fo fn : obj) : bool :=
   match fo, fn with
-  | OFunc n1 _ _ _ _ _ cl1 fv1, OFunc n2 _ _ _ _ _ cl2 fv2 =>
+  | OFunc n1 _ _ _ _ _ _ _ cl1 fv1, OFunc n2 _ _ _ _ _ _ _ cl2 fv2 =>
       (n1 =? n2)%N && Nat.eqb (length cl1) (length cl2) && listN_eqb fv1 fv2 && cells_ok h cl1 cl2
   | _, _ => false
   end.
@@ -158,15 +159,15 @@ Fixpoint patch_cells (rec : recT) (stack : list addr) (l1 l2 : list addr) (acc :
   | _, _ => acc
   end.
 
-(*  old_func.__code__ = new_func.__code__; __defaults__; __doc__
+(*  old_func.__code__ = new_func.__code__; __defaults__; __kwdefaults__; __doc__; __annotations__
     livepatch(old_func.__dict__, new_func.__dict__, ...)
     <cells>; return old_func                                                                *)
 Definition patch_function (rec : recT) (s : st) (stack : list addr) (f_old f_new : addr) : res :=
   match lookup (hp s) f_old, lookup (hp s) f_new with
-  | Some (OFunc n1 m1 c1 d1 doc1 fd1 cl1 fv1 as fo), Some (OFunc n2 m2 c2 d2 doc2 fd2 cl2 fv2 as fn) =>
+  | Some (OFunc n1 m1 c1 d1 kd1 doc1 an1 fd1 cl1 fv1 as fo), Some (OFunc n2 m2 c2 d2 kd2 doc2 an2 fd2 cl2 fv2 as fn) =>
       if negb (func_compatible (hp s) fo fn) then Ok s f_new
       else
-        let s1 := upd s f_old (OFunc n1 m1 c2 d2 doc2 fd1 cl1 fv1) in
+        let s1 := upd s f_old (OFunc n1 m1 c2 d2 kd2 doc2 an2 fd1 cl1 fv1) in
         bind (rec s1 stack fd1 fd2) (fun s2 _ =>
         bind (patch_cells rec stack cl1 cl2 (Ok s2 f_old)) (fun s3 _ => Ok s3 f_old))
   | _, _ => Raised s
